@@ -98,7 +98,10 @@ func readBlobString(i *bufio.Reader) (m RedisMessage, err error) {
 				m.setString(sb.String())
 				return m, nil
 			}
-			sb.Grow(int(length))
+			if length < 0 {
+				return RedisMessage{}, errNegativeLength
+			}
+			sb.Grow(int(min(length, maxPrealloc)))
 			if _, err = io.CopyN(&sb, i, length); err != nil {
 				return RedisMessage{}, err
 			}
@@ -148,6 +151,9 @@ func readArray(i *bufio.Reader) (m RedisMessage, err error) {
 func readMap(i *bufio.Reader) (m RedisMessage, err error) {
 	length, err := readI(i)
 	if err == nil {
+		if length > math.MaxInt64/2 {
+			return m, errNegativeLength
+		}
 		m.array, m.intlen, err = readA(i, length*2)
 	} else if err == errChunked {
 		m.array, m.intlen, err = readE(i)
@@ -195,6 +201,9 @@ func readI(i *bufio.Reader) (v int64, err error) {
 	}
 	for _, c := range bs[:len(bs)-2] {
 		if d := int64(c - '0'); d >= 0 && d <= 9 {
+			if v > (math.MaxInt64-d)/10 { // one digit too many for an int64
+				return 0, errors.New(unexpectedNumByte + strconv.Itoa(int(c)))
+			}
 			v = v*10 + d
 		} else {
 			return 0, errors.New(unexpectedNumByte + strconv.Itoa(int(c)))
@@ -211,9 +220,27 @@ func readB(i *bufio.Reader) (*byte, int64, error) {
 	if length == -1 {
 		return nil, 0, errOldNull
 	}
-	bs := make([]byte, length)
-	if _, err = io.ReadFull(i, bs); err != nil {
-		return nil, 0, err
+	if length < 0 {
+		return nil, 0, errNegativeLength
+	}
+	var bs []byte
+	if length <= maxPrealloc {
+		bs = make([]byte, length)
+		if _, err = io.ReadFull(i, bs); err != nil {
+			return nil, 0, err
+		}
+	} else {
+		// do not trust a declared length with memory before the bytes have arrived
+		bs = make([]byte, maxPrealloc)
+		for n := int64(0); ; {
+			if _, err = io.ReadFull(i, bs[n:]); err != nil {
+				return nil, 0, err
+			}
+			if n = int64(len(bs)); n == length {
+				break
+			}
+			bs = append(bs, make([]byte, min(n, length-n))...)
+		}
 	}
 	if _, err = i.Discard(2); err != nil {
 		return nil, 0, err
@@ -238,11 +265,26 @@ func readE(i *bufio.Reader) (*RedisMessage, int64, error) {
 func readA(i *bufio.Reader, length int64) (*RedisMessage, int64, error) {
 	var err error
 
-	msgs := make([]RedisMessage, length)
-	for n := range length {
-		if msgs[n], err = readNextMessage(i); err != nil {
+	if length < 0 {
+		return nil, 0, errNegativeLength
+	}
+	if length <= int64(maxPrealloc/messageStructSize) {
+		msgs := make([]RedisMessage, length)
+		for n := range length {
+			if msgs[n], err = readNextMessage(i); err != nil {
+				return nil, 0, err
+			}
+		}
+		return unsafe.SliceData(msgs), length, nil
+	}
+	// do not trust a declared length with memory before the elements have arrived
+	msgs := make([]RedisMessage, 0, maxPrealloc/messageStructSize)
+	for range length {
+		m, err := readNextMessage(i)
+		if err != nil {
 			return nil, 0, err
 		}
+		msgs = append(msgs, m)
 	}
 	return unsafe.SliceData(msgs), length, nil
 }
@@ -327,6 +369,9 @@ next:
 		if n == -1 {
 			return 0, Nil, true
 		}
+		if n < 0 {
+			return 0, errNegativeLength, false
+		}
 		full := n + 2
 		if n != 0 {
 			lr := lrs.Get().(*io.LimitedReader)
@@ -384,6 +429,12 @@ func flushCmd(o *bufio.Writer, cmd []string) (err error) {
 	_ = writeCmd(o, cmd)
 	return o.Flush()
 }
+
+// maxPrealloc bounds the memory committed for a declared length before the corresponding bytes have been received.
+const maxPrealloc = 1 << 20
+
+// errNegativeLength reports a length below -1, i.e. a minus sign where only digits can follow
+var errNegativeLength = errors.New(unexpectedNumByte + strconv.Itoa('-'))
 
 const (
 	unexpectedNoCRLF   = "received unexpected simple string message ending without CRLF"
